@@ -115,11 +115,14 @@ class Aux:
         self.Pm = (np.eye(n) * 0.5).astype(A.dtype)
         self.rows = np.array([1, 0, 2][:m])
         self.cols = np.array([0, 2, 1][:n])
+        # index arrays with negative entries (aliases of positions counted from the end; the arrays stay the caller's)
+        self.rowsn = np.array([-1, 0, -2][:m])
+        self.colsn = np.array([1, -1, 0][:n])
         # operands of a wider dtype than the operator (complex for a real operator, double for a single-precision one)
         wide = {"f4": "f8", "f8": "c16", "c8": "c16", "c16": "c16"}[dt]
         self.xw = P.operand(seed + 6, (n, ), wide, "normal")
         self.Yw = P.operand(seed + 7, (2, m), wide, "normal")
-        self.arrays = [self.x, self.X, self.y, self.Y, self.x0, self.X0, self.v, self.Pm, self.rows, self.cols, self.xw, self.Yw]
+        self.arrays = [self.x, self.X, self.y, self.Y, self.x0, self.X0, self.v, self.Pm, self.rows, self.cols, self.rowsn, self.colsn, self.xw, self.Yw]
         # caller-owned algorithm objects, shared by every operation of a history (an options object is a value too: using it
         # for one call must not change what the next call with the same object does)
         from cola import linalg as L
@@ -163,6 +166,9 @@ def alphabet():
         "annotate": (sq, lambda A, a: cola.SelfAdjoint(A)), "no_dispatch": (None, lambda A, a: cola.no_dispatch(A) @ a.x),
         "getitem_int": (None, lambda A, a: A[0, 1]), "getitem_row": (None, lambda A, a: A[1]), "getitem_slice": (None, lambda A, a: A[0:2, 1:3].to_dense()),
         "getitem_arrays": (None, lambda A, a: A[a.rows, a.cols] @ np.ones(len(a.cols), dtype=a.x.dtype)),
+        "getitem_arrays_negative": (None, lambda A, a: A[a.rowsn, a.colsn] @ np.ones(len(a.colsn), dtype=a.x.dtype)),
+        "getitem_array_rows_negative": (None, lambda A, a: A[a.rowsn].to_dense()),
+        "sliced_ctor_negative": (None, lambda A, a: cola.ops.Sliced(A, (a.rowsn, slice(None))) @ a.x),
         "to_dtype": (None, lambda A, a: A.to(None, dtype=np.complex128)),
         "flatten_unflatten": (None, lambda A, a: (lambda f: f[1](f[0]))(A.flatten())),
         "inv_solve": (sq, lambda A, a: L.inv(A) @ a.x), "solve": (sq, lambda A, a: L.solve(A, a.X)),
